@@ -2,10 +2,12 @@ module verif/harness
 
 go 1.23.0
 
-require github.com/kercylan98/minotaur v0.0.0
+require (
+	github.com/RussellLuo/timingwheel v0.0.0-20220218152713-54845bda3108
+	github.com/kercylan98/minotaur v0.0.0
+)
 
 require (
-	github.com/RussellLuo/timingwheel v0.0.0-20220218152713-54845bda3108 // indirect
 	github.com/alphadose/haxmap v1.4.0 // indirect
 	github.com/fatih/color v1.17.0 // indirect
 	github.com/gorhill/cronexpr v0.0.0-20180427100037-88b0669f7d75 // indirect
